@@ -372,9 +372,13 @@ def op_reject(w, ins):
         n = len(order)
         if n < 1:
             return 'skip'
-        t = ins.get('t', 0) % 5
+        t = ins.get('t', 0) % 7
         i = ins.get('pos', 0) % n
-        if t == 0:
+        if t == 5:
+            args = (n - 1, n)                             # the last variable and the terminal's level
+        elif t == 6:
+            args = (n, n - 1) if ins.get('neg') else (-1, 0)
+        elif t == 0:
             args = (order[i], order[i])                   # the same variable twice
         elif t == 1:
             args = (i, i)                                 # the same level twice
